@@ -675,6 +675,14 @@ def gen(rng, tier):
     # Go's regexp against the hand-written model of the subset that the `-e` expectations use
     for c in gen_regexsub(rng, 400 if tier == "quick" else 6000):
         yield c
+    # `subset -e` with several ARBITRARY Go expressions (inline flags, alternations, anchors, classes): the rows kept are
+    # the union of the rows kept with each expression alone - the binary against itself, no regexp model involved
+    atoms = ["(?i)^a", "(?i)b", "^B", "^s", "2$", "[0-9]+$", "a|Z", "(?s).", "(?U)a+", "^(alpha|beta)", "e.a", "(?i:T)a", "_", "^$", "S"]
+    for _ in range(30 if tier == "quick" else 300):
+        names = rng.sample(["alpha1", "Alpha2", "beta2", "BETA3", "sTa", "STa_4", "gamma", "Zeta9", "b", "A"], rng.randint(2, 8))
+        rows = [(nm, "".join(rng.choice("ACGT-") for _ in range(5))) for nm in names]
+        pats = rng.sample(atoms, rng.randint(2, 4))
+        yield Case("detunion", [cligen.esc(cligen.fasta(rows)), ";;".join(pats), rng.randint(0, 1), "subset"], True, "cli-subset-regexps-union")
     for _ in range(2 if tier == "quick" else 20):
         for argv in MULTI_CMDS:
             yield multigen.multi_case(multigen.alignments(rng), argv, "cli-multi-" + "-".join(argv[:2]))
